@@ -7,7 +7,7 @@ from c15_objs import *
 from c15_oracle import expect, call, CLEAN
 
 PROP = 'C15'
-LEAN_MODULES = ['PMV.Props.C15', 'PMV.Lemmas.Ravel', 'PMV.Lemmas.AxisPerm', 'PMV.Lemmas.AxisOps']
+LEAN_MODULES = ['PMV.Props.C15', 'PMV.Lemmas.C15Calls', 'PMV.Lemmas.Ravel', 'PMV.Lemmas.AxisPerm', 'PMV.Lemmas.AxisOps']
 PARALLEL = True
 MANIFEST = {
     'text': 'Kernel-checked theorems (PMV/Props/C15.lean, lemmas in PMV/Lemmas/Ravel.lean, AxisPerm.lean, AxisOps.lean) about a code-shaped '
@@ -30,7 +30,9 @@ MANIFEST = {
 RULE = ('operand provenance: fresh C-contiguous arrays, np.asfortranarray copies, transposed views of C bases, '
         'every-second-element views of wider bases (last / first axis), and results of a previous shaping operation '
         '(swap_axes, move_axis, roll_axis, broadcast_to applied to a C-contiguous pre-image), for values, mask arrays '
-        'and derivative arrays alike, for every operation, in both tiers; '
+        'and derivative arrays alike, for every operation, in both tiers; warm caches: 35 % of the operands had '
+        'antimask / wod / corners / slicer queried before the call, and every result is checked for cached accessors '
+        'that disagree with its arrays; '
         'objects: every class with every item shape it admits, denominators of rank 0-2, leading shapes of rank 0-4 with axis '
         'lengths 0-3 (quick: all shapes of rank <= 2 plus a seeded sample of rank 3-4; thorough: all 341), every mask '
         'representation (False / True / array / broadcast view), 0-2 derivatives with their own masks and denominators; '
@@ -119,9 +121,18 @@ def signature(case):
 
 def oracle(case):
     exp = expect(case)
+    try:
+        raw = call(case)
+        got = observe(raw)
+    except Exception as e:
+        raw, got = None, C.exc_name(e)
+    if raw is not None:
+        prob = cache_problem(raw)
+        if prob:
+            return (signature(case) + ':stale-cache', '%s %s: a cached accessor of the result is stale: %s'
+                    % (case['op'], case['args'], prob))
     if exp is None:
         return None
-    got = impl(case)
     if exp == 'reject':
         if isinstance(got, str) and got in CLEAN:
             return None
@@ -196,6 +207,8 @@ def rand_obj(rng, shape, cls=None, numer=None, denom=None, nderiv=None, base=0, 
                             'mask': rand_mask(rng, shape), 'base': 1000 * (k + 1) + base,
                             'view': rng.random() < 0.25})
     rand_layout(rng, o)
+    if rng.random() < 0.35:
+        o['warm'] = rng.sample(list(WARMERS), rng.randint(1, len(WARMERS)))
     return o
 
 
